@@ -474,6 +474,13 @@ func (r *Reconciler) reconcileCommit(ctx context.Context, proposal *configapi.Pr
 		if err := r.updateProposalStatus(ctx, proposal); err != nil {
 			return controller.Result{}, err
 		}
+		// Wake the successor now: once the transaction controller has started this proposal's Apply phase the
+		// COMMITTED branch below is never reached again, and a successor waiting for this commit would be stranded
+		if proposal.Status.NextIndex != 0 {
+			return controller.Result{
+				Requeue: controller.NewID(proposalstore.NewID(proposal.TargetID, proposal.Status.NextIndex)),
+			}, nil
+		}
 		return controller.Result{}, nil
 	case configapi.ProposalCommitPhase_COMMITTED:
 		if proposal.Status.NextIndex != 0 {
